@@ -6,7 +6,7 @@
 From Coq Require Import String ZArith Bool Arith List Lia Reals QArith.
 Import ListNotations.
 From FV.C13 Require Import Model ProofsInc Props.
-From FV.C14 Require Import Model Proofs Prog ProofsProg.
+From FV.C14 Require Import Model Proofs Gather Prog ProofsProg.
 From FV.C14.gen Require Import E2NProg.
 Open Scope nat_scope.
 
@@ -37,6 +37,24 @@ Theorem C14_n2e_affine : forall m data w res j e c (x y z : nat -> R) a1 a2 a3 b
       (a1 * (rsum (map x ps) / INR (length ps)) + a2 * (rsum (map y ps) / INR (length ps))
        + a3 * (rsum (map z ps) / INR (length ps)) + b)%R.
 Proof. exact n2e_affine. Qed.
+
+(* calc_average=False: per element the rows of the field at its own nodes, in
+   the element's local node order (ravel=True: concatenated); for every Ops *)
+Theorem C14_n2e_gather : forall (T : Type) (O : Ops T) m data w g j e,
+  n2e_gather O m data w = Some g -> nth_error (elems_of (m_blocks m)) j = Some e ->
+  exists ps rows,
+    nth_error g j = Some rows /\
+    Forall2 (fun nid p => nth_error (m_nodes m) p = Some nid) (snd e) ps /\
+    rows = map (data_row O data w) ps /\
+    length rows = length (snd e) /\
+    forall k p c, nth_error ps k = Some p -> c < w ->
+      nth c (nth k rows []) (o0 O) = cell O data p c.
+Proof. intros T O. exact (n2e_gather_spec O). Qed.
+
+(* calc_average=True is the column mean of that gather *)
+Theorem C14_n2e_mean_of_gather : forall (T : Type) (O : Ops T) m data w,
+  n2e O m data w = option_map (map (mean_rows O w)) (n2e_gather O m data w).
+Proof. intros T O. exact (n2e_is_mean_of_gather O). Qed.
 
 (* ------------------------------------------ elemental -> nodal, mode='mean' *)
 (* with the weights wt the call uses (ones / the explicit array / the element
@@ -204,6 +222,8 @@ Example C14_nonvacuous :
   e2n QOps mesh_c14 true false WFalse [[3#1]; [6#1]]%Q 1
     = Some [[1#1]; [3#1]; [3#1]; [2#1]; [0#1]; [0#1]]%Q /\
   n2e QOps mesh_c14 [[3#1]; [6#1]; [0#1]; [9#1]; [1#1]; [1#1]]%Q 1 = Some [[3#1]; [5#1]]%Q /\
+  n2e_ravel QOps mesh_c14 [[3#1]; [6#1]; [0#1]; [9#1]; [1#1]; [1#1]]%Q 1
+    = Some [[3#1; 6#1; 0#1]; [6#1; 0#1; 9#1]]%Q /\
   (* the translated program computes the same, also with an `incidence=` argument *)
   run_e2n_prog QOps e2n_prog mesh_c14 "mean" false true (WExplicit [1#1; 3#1]%Q) None [[2#1]; [6#1]]%Q 1
     = Some [[2#1]; [5#1]; [5#1]; [6#1]; [0#1]; [0#1]]%Q /\
